@@ -84,6 +84,12 @@ func c09(e *Env) {
 		prepared []byte
 	}
 	current := make([]string, len(f.clients))
+	type c09sent struct {
+		q, t, text string
+		isSelect   bool
+		tok        string
+	}
+	var history []c09sent
 	checked, handledN, forwardedN := 0, 0, 0
 	nOps := 30 + c.Choose("c09ops", 70)
 	// systematic component: the cell index sweeps the cross product across seeds
@@ -158,6 +164,17 @@ func c09(e *Env) {
 		case 3:
 			text = "DELETE FROM " + from + " WHERE key = '" + tok + "'"
 		}
+		// sometimes a text that was sent before, byte for byte, by whichever client and under
+		// whatever keyspace is current now: who answers depends on the current keyspace, not on
+		// what was decided for the same text earlier
+		if len(history) > 0 && c.Choose("c09repeat", 4) == 3 {
+			h := history[c.Choose("c09repeatwhich", len(history))]
+			q, t, text, isSelect, tok = h.q, h.t, h.text, h.isSelect, h.tok
+			e.Res.Stats["probe.c09.text_repeated"]++
+		} else {
+			history = append(history, c09sent{q, t, text, isSelect, tok})
+		}
+		attemptsBefore := len(w.Attempts[tok])
 		effCurrent := current[ci]
 		style := []string{"query", "prepare"}[c.Choose("style", 2)]
 		var msg message.Message = world.QueryMsg(text, primitive.ConsistencyLevelOne)
@@ -189,11 +206,11 @@ func c09(e *Env) {
 			return
 		}
 		w.Quiesce()
-		reached := len(w.Attempts[tok]) > 0
+		reached := len(w.Attempts[tok]) > attemptsBefore
 		desc := fmt.Sprintf("%s of %q with current keyspace %q", strings.ToUpper(style), text, effCurrent)
 		// what kind of mismatch: qualifier ignored, case rule, look-alike table ...
 		if expectHandled && reached {
-			w.Violate("c09-route", "system-read-forwarded", desc+": this is a read of a virtualised system table and must be answered by the proxy, but it reached "+w.Attempts[tok][0].Conn.String())
+			w.Violate("c09-route", "system-read-forwarded", desc+": this is a read of a virtualised system table and must be answered by the proxy, but it reached "+w.Attempts[tok][len(w.Attempts[tok])-1].Conn.String())
 			return
 		}
 		if !expectHandled && !reached {
